@@ -24,7 +24,7 @@ def orders(ms, limit=None):
 
 def rand_vals(rng, n, flavour=None, B=None):
     """a list of n values from a mixture that forces ties, zeros, duplicates, one dominant item, ..."""
-    flavour = flavour or rng.choice(["tiny", "small", "mid", "zeros", "dominant", "equal", "wide", "dups"])
+    flavour = flavour or rng.choice(["tiny", "small", "mid", "zeros", "dominant", "equal", "wide", "dups", "bigclose"])
     if flavour == "tiny":
         return [rng.randint(1, 3) for _ in range(n)]
     if flavour == "small":
@@ -42,6 +42,11 @@ def rand_vals(rng, n, flavour=None, B=None):
         return [x] * n
     if flavour == "wide":
         return [rng.randint(1, 10 ** rng.randint(1, 6)) for _ in range(n)]
+    if flavour == "bigclose":
+        # large values that are nearly but not exactly tied (relative differences far below 1e-9 .. 1e-5):
+        # exact comparisons must not be replaced by tolerant ones
+        base = 10 ** rng.randint(6, 12)
+        return [rng.choice([1, 1, 2, 3]) * base + rng.randint(0, 9) for _ in range(n)]
     if flavour == "dups":
         pool = [rng.randint(1, 50) for _ in range(max(1, n // 3))]
         return [rng.choice(pool) for _ in range(n)]
@@ -61,6 +66,39 @@ def rand_pack_vals(rng, n, B):
         else:
             res.append(rng.randint(1, B) if B >= 1 else 0)
     return res
+
+
+def big_pack_case(rng, nmax=10):
+    """bin size >= 10^9 with items that miss an exact fill by 1: a tolerant comparison would overfill or misjudge a bin"""
+    B = rng.choice([10 ** 9, 2 ** 31, 10 ** 12, 2 ** 40])
+    parts = []
+    for _ in range(rng.randint(1, max(1, nmax // 2))):
+        a = rng.randint(1, B - 1) if rng.random() < 0.5 else B // 2
+        parts += [a, B - a + rng.choice([-1, 0, 0, 1, 1])]
+    parts = [min(max(x, 0), B) for x in parts][:nmax]
+    rng.shuffle(parts)
+    return B, parts
+
+
+def hard_bc_case(rng, Bs=(10, 12, 20, 30), nmin=6, nmax=11, tries=60):
+    """an input on which best-fit-decreasing does not meet the lower bound, so bin-completion's branching search runs;
+    few distinct values, so completions contain values that also occur among the remaining items"""
+    import math
+    for _ in range(tries):
+        B = rng.choice(Bs)
+        pool = [rng.randint(max(1, B // 6), B) for _ in range(rng.randint(2, 4))]
+        n = rng.randint(nmin, nmax)
+        vals = [rng.choice(pool) for _ in range(n)]
+        bins = []
+        for x in sorted(vals, reverse=True):
+            fit = [b for b in bins if sum(b) + x <= B]
+            if fit:
+                max(fit, key=sum).append(x)
+            else:
+                bins.append([x])
+        if len(bins) > math.ceil(sum(vals) / B):
+            return B, vals
+    return B, vals
 
 
 def planted_packing(rng, nbins, B, max_per_bin=5):
